@@ -1702,6 +1702,289 @@ theorem pairs_loop {s : Store} {hb g : Nat} (hCH : CH s hb) : ∀ ps have_ Δ,
                         · exact hsub x this
                       · exact hcv j hj hj1
         case false =>
-          sorry
+          cases h1 : canonicalKey s g k with
+          | error e => simp [h1] at hΔ
+          | ok ck =>
+            simp only [h1] at hΔ
+            cases h2 : pairsD s (den s hb) g have_ rest with
+            | error e => simp [h2] at hΔ
+            | ok r =>
+              simp only [h2, Except.ok.injEq] at hΔ
+              subst hΔ
+              cases hck : canonicalKey s (F + 1) k with
+              | error e => simp [hck] at hek
+              | ok ck' =>
+                have : ck' = ck := by
+                  rcases canonicalKey_agree (F := F + 1) h1 with h | h
+                  · rw [hck] at h; cases h
+                  · rw [hck] at h; exact Except.ok.inj h
+                subst this
+                simp only [hck] at hek ⊢
+                cases hek' : explicitKeys s F rest with
+                | error e => simp [hek', Except.map] at hek
+                | ok ksr' =>
+                  simp only [hek', Except.map, Except.ok.injEq] at hek
+                  subst hek
+                  have hy := Post.yield (s := s) outer st ck' v
+                  cases hyc : yieldChain outer ck' with
+                  | mk outer1 b =>
+                    rw [hyc] at hy
+                    simp only at hy
+                    have hne1 : outer1 ≠ [] := hy.su.ne_nil hne
+                    have hsub1 : ∀ x ∈ outer.flatten, x ∈ outer1.flatten :=
+                      fun x hx => (hy.su.flatten hne x).mpr (.inl hx)
+                    have hck1 : ck' ∈ outer1.flatten := keys_sub_of_su hne hy.su ck' (by simp)
+                    have hI3' : ∀ x, (x ∈ cur ∨ x ∈ outer1.flatten) ↔ (x ∈ have_ ∨ x ∈ outer1.flatten) := by
+                      intro x
+                      have a := hy.su.flatten hne x; have d := hI3 x
+                      grind
+                    have hI4' : ∀ x ∈ cur, x ∈ outer1.flatten ∨ x ∈ ksr' := by
+                      intro x hx
+                      rcases hI4 x hx with h | h
+                      · exact .inl (hsub1 x h)
+                      · rcases List.mem_cons.mp h with h | h
+                        · subst h; exact .inl hck1
+                        · exact .inr h
+                    have hcov1 : Cov s st.merged (cur :: outer1).flatten hb := by
+                      refine hcov.mono ?_ (Nat.le_refl _)
+                      intro x hx
+                      simp only [List.flatten_cons, List.mem_append] at hx ⊢
+                      exact hx.imp id (hsub1 x)
+                    cases b with
+                    | false =>
+                      simp only [Bool.false_eq_true, ↓reduceIte] at hy ⊢
+                      rcases ih _ _ h2 F cur outer1 st ksr' hne1 hek' hI3' hI4' hcov1 with
+                        hf | ⟨cur', outer', st', hr2, hp2, hco, hcv⟩
+                      · exact .inl hf
+                      · exact .inr ⟨cur', outer', st', hr2, PostC.trans hne hy.toPostC hp2, hco, hcv⟩
+                    | true =>
+                      simp only [↓reduceIte] at hy ⊢
+                      rcases ih _ _ h2 F cur outer1 { st with out := st.out ++ [(ck', v)] } ksr' hne1 hek'
+                        hI3' hI4' hcov1 with hf | ⟨cur', outer', st', hr2, hp2, hco, hcv⟩
+                      · exact .inl hf
+                      · exact .inr ⟨cur', outer', st', hr2, PostC.trans hne hy.toPostC hp2, hco, hcv⟩
+
+/-- Pass 2 over the pairs of the mapping being ranged (empty enclosing chain: explicit pairs are all yielded). -/
+theorem top_loop {s : Store} {hb g : Nat} (hCH : CH s hb) : ∀ ps have_ Δ,
+    pairsD s (den s hb) g have_ ps = .ok Δ →
+    ∀ F cur st, (∀ k, k ∈ cur ↔ k ∈ have_) → Cov s st.merged cur hb →
+    rangePairs s F cur [] st ps = .error .fuel ∨
+    ∃ cur' st', rangePairs s F cur [] st ps = .ok (cur', [], st') ∧ st'.out = st.out ++ Δ := by
+  intro ps
+  induction ps with
+  | nil =>
+    intro have_ Δ hΔ F cur st hI3 hcov
+    simp only [pairsD, Except.ok.injEq] at hΔ
+    subst hΔ
+    cases F with
+    | zero => exact .inl (by simp [rangePairs])
+    | succ F => exact .inr ⟨cur, st, by simp [rangePairs], by simp⟩
+  | cons p rest ih =>
+    obtain ⟨k, v⟩ := p
+    intro have_ Δ hΔ F cur st hI3 hcov
+    cases F with
+    | zero => exact .inl (by simp [rangePairs])
+    | succ F =>
+      simp only [pairsD] at hΔ
+      simp only [rangePairs]
+      cases hs : s[k]? with
+      | none => simp [hs] at hΔ
+      | some kn =>
+        simp only [hs] at hΔ ⊢
+        cases hm : kn.isMerge <;> simp only [hm, Bool.false_eq_true, ↓reduceIte] at hΔ ⊢
+        case true =>
+          cases h1 : den s hb (some v) with
+          | error e => simp [h1] at hΔ
+          | ok c =>
+            simp only [h1] at hΔ
+            cases h2 : pairsD s (den s hb) g ((keysOf (fresh have_ c)).reverse ++ have_) rest with
+            | error e => simp [h2] at hΔ
+            | ok r =>
+              simp only [h2, Except.ok.injEq] at hΔ
+              subst hΔ
+              have hcov0 : Cov s st.merged [cur].flatten hb := hcov.mono (by simp) (Nat.le_refl _)
+              rcases hCH _ _ h1 F [cur] st (by simp) hcov0 with hf | ⟨lv1, st1, hr, hp1⟩
+              · left; rw [hf]
+              · rw [hr]
+                have hc : fresh [cur].flatten c = fresh have_ c := by
+                  apply fresh_congr
+                  intro x
+                  simpa using hI3 x
+                cases lv1 with
+                | nil => have := hp1.su.1; simp at this
+                | cons cur1 outer1 =>
+                  have hl := hp1.su.1
+                  simp only [List.length_cons, List.length_nil, Nat.zero_add, Nat.add_eq_right,
+                    List.length_eq_zero_iff] at hl
+                  subst hl
+                  simp only []
+                  have hI3' : ∀ x, x ∈ cur1 ↔ x ∈ (keysOf (fresh have_ c)).reverse ++ have_ := by
+                    intro x
+                    have a := hp1.su.flatten (by simp) x
+                    rw [hc] at a
+                    have d := hI3 x
+                    simp only [List.flatten_cons, List.flatten_nil, List.append_nil] at a
+                    simp only [List.mem_append, List.mem_reverse]
+                    grind
+                  have hcov1 : Cov s st1.merged cur1 hb :=
+                    (hcov0.after (by simp) hp1).mono (by simp) (Nat.le_refl _)
+                  rcases ih _ _ h2 F cur1 st1 hI3' hcov1 with hf | ⟨cur', st', hr2, ho⟩
+                  · exact .inl hf
+                  · refine .inr ⟨cur', st', hr2, ?_⟩
+                    rw [ho, hp1.out, hc, List.append_assoc]
+        case false =>
+          cases h1 : canonicalKey s g k with
+          | error e => simp [h1] at hΔ
+          | ok ck =>
+            simp only [h1] at hΔ
+            cases h2 : pairsD s (den s hb) g have_ rest with
+            | error e => simp [h2] at hΔ
+            | ok r =>
+              simp only [h2, Except.ok.injEq] at hΔ
+              subst hΔ
+              rcases canonicalKey_agree (F := F + 1) h1 with hf | hok
+              · left; rw [hf]
+              · rw [hok]
+                simp only [yieldChain]
+                rcases ih _ _ h2 F cur { st with out := st.out ++ [(ck, v)] } hI3 hcov with
+                  hf | ⟨cur', st', hr2, ho⟩
+                · exact .inl hf
+                · exact .inr ⟨cur', st', hr2, by rw [ho]; simp⟩
+
+def Main (s : Store) (h : Nat) : Prop :=
+  ∀ v c, den s h (some v) = .ok c → (∀ h', h' < h → ∀ c', den s h' (some v) ≠ .ok c') →
+    ∀ F lv st, lv ≠ [] → Cov s st.merged lv.flatten h → Good s (rangeImpl s F lv st (some v)) lv st c
+
+theorem CH_of_Main {s : Store} {hb : Nat} (hM : ∀ h, h ≤ hb → Main s h) : CH s hb := by
+  intro o c hd F lv st hne hcov
+  cases o with
+  | none =>
+    cases hb with
+    | zero => simp [den] at hd
+    | succ hb =>
+      simp only [den, Except.ok.injEq] at hd
+      subst hd
+      cases F with
+      | zero => exact .inl (by simp [rangeImpl])
+      | succ F =>
+        exact .inr ⟨lv, st, by simp [rangeImpl], ⟨PostC.of_covered (by simp), fun j hj hn => absurd hj hn⟩⟩
+  | some v =>
+    obtain ⟨h0, hle, hd0, hmin⟩ := den_exists_min hb c hd
+    exact hM h0 hle v c hd0 hmin F lv st hne (hcov.mono (fun _ h => h) hle)
+
+theorem main_all (s : Store) : ∀ h, Main s h := by
+  intro h
+  induction h using Nat.strongRecOn with
+  | _ h ih =>
+    cases h with
+    | zero => intro v c hd; simp [den] at hd
+    | succ hb =>
+      have hCH : CH s hb := CH_of_Main (fun h hle => ih h (by omega))
+      intro v c hd hmin F lv st hne hcov
+      have hd0 := hd
+      cases F with
+      | zero => exact .inl (by simp [rangeImpl])
+      | succ F =>
+        simp only [rangeImpl]
+        by_cases hin : v ∈ st.merged
+        · rw [if_pos (by simpa using hin)]
+          exact .inr ⟨lv, st, rfl, ⟨PostC.of_covered (hcov v hin (hb + 1) (Nat.le_refl _) c hd),
+            fun j hj hn => absurd hj hn⟩⟩
+        · rw [if_neg (by simpa using hin)]
+          have hcov1 : Cov s (v :: st.merged) lv.flatten hb := by
+            intro j hj h hle c' hd' k hk
+            rcases List.mem_cons.mp hj with rfl | hj
+            · exact absurd hd' (hmin h (by omega) c')
+            · exact hcov j hj h (by omega) c' hd' k hk
+          simp only [den] at hd
+          cases hs : s[v]? with
+          | none => simp [hs] at hd
+          | some n =>
+            simp only [hs] at hd ⊢
+            cases hk : n.kind <;> simp only [hk] at hd ⊢ <;> try (simp at hd; done)
+            · -- sequence
+              rcases seq_loop hCH _ _ hd F lv { merged := v :: st.merged, out := st.out } hne hcov1 with
+                hf | ⟨lv', st', hr, hp⟩
+              · exact .inl hf
+              · exact .inr ⟨lv', st', hr, Post.enter hne hd0 hp⟩
+            · -- mapping
+              cases hp : pairsOf n.content with
+              | none => simp [hp] at hd
+              | some ps =>
+                simp only [hp] at hd ⊢
+                cases he : explicitKeys s (hb + 1) ps with
+                | error e => simp [he] at hd
+                | ok ks =>
+                  simp only [he] at hd
+                  rcases explicitKeys_agree (F := F) he with hf | hok
+                  · left; rw [hf]
+                  · rw [hok]
+                    simp only []
+                    have hcov2 : Cov s (v :: st.merged) (ks :: lv).flatten hb :=
+                      hcov1.mono (fun x hx => by simp only [List.flatten_cons, List.mem_append]; exact .inr hx)
+                        (Nat.le_refl _)
+                    rcases pairs_loop hCH ps ks c hd F ks lv { merged := v :: st.merged, out := st.out } ks hne hok
+                      (fun _ => Iff.rfl) (fun k hk => .inr hk) hcov2 with hf | ⟨cur', outer', st', hr, hp2, _, hcv⟩
+                    · left; rw [hf]
+                    · rw [hr]
+                      exact .inr ⟨outer', st', rfl, Post.enter hne hd0 ⟨hp2, hcv⟩⟩
+            · -- alias
+              rcases hCH _ _ hd F lv { merged := v :: st.merged, out := st.out } hne hcov1 with
+                hf | ⟨lv', st', hr, hp⟩
+              · exact .inl hf
+              · exact .inr ⟨lv', st', hr, Post.enter hne hd0 hp⟩
+
+/-- Ranging a mapping yields its `den`otation, unless the fuel runs out. -/
+theorem rangeMap_den (s : Store) (h i F : Nat) (n : NodeRec) (c : Pairs) (hs : s[i]? = some n)
+    (hk : n.kind = .mapping) (hd : den s h (some i) = .ok c) :
+    rangeMap s F i = .error .fuel ∨ rangeMap s F i = .ok c := by
+  obtain ⟨h0, _, hd0, hmin⟩ := den_exists_min h c hd
+  cases h0 with
+  | zero => simp [den] at hd0
+  | succ hb =>
+    have hCH : CH s hb := CH_of_Main (fun h _ => main_all s h)
+    unfold rangeMap
+    cases F with
+    | zero => exact .inl (by simp [rangeImpl, Except.map])
+    | succ F =>
+      simp only [rangeImpl, List.contains_nil, Bool.false_eq_true, ↓reduceIte, hs, hk]
+      simp only [den, hs, hk] at hd0
+      cases hp : pairsOf n.content with
+      | none => simp [hp] at hd0
+      | some ps =>
+        simp only [hp] at hd0 ⊢
+        cases he : explicitKeys s (hb + 1) ps with
+        | error e => simp [he] at hd0
+        | ok ks =>
+          simp only [he] at hd0
+          rcases explicitKeys_agree (F := F) he with hf | hok
+          · left; rw [hf]; rfl
+          · rw [hok]
+            simp only []
+            have hcov : Cov s [i] ks hb := by
+              intro j hj h' hle c' hd' k hk'
+              simp only [List.mem_singleton] at hj
+              subst hj
+              exact absurd hd' (hmin h' (by omega) c')
+            rcases top_loop hCH ps ks c hd0 F ks { merged := [i], out := [] } (fun _ => Iff.rfl) hcov with
+              hf | ⟨cur', st', hr, ho⟩
+            · left; rw [hf]; rfl
+            · right; rw [hr]; simp [Except.map, ho]
+
+theorem merge_is_spec (s : Store) (f : Nat) (i : Nat) (ps : List (String × Nat)) (hflat : AliasFlat s)
+    (h : specContent s f i = .ok ps) : rangeMap s (bound s) i = .ok ps := by
+  obtain ⟨hh, hd⟩ := specContent_den s f i ps h
+  cases f with
+  | zero => simp [specContent] at h
+  | succ f =>
+    simp only [specContent] at h
+    cases hs : s[i]? with
+    | none => simp [hs] at h
+    | some n =>
+      simp only [hs] at h
+      cases hk : n.kind <;> simp only [hk] at h <;> try (simp at h; done)
+      rcases rangeMap_den s hh i (bound s) n ps hs hk hd with hf | hok
+      · exact absurd hf (rangeMap_total s i hflat)
+      · exact hok
 
 end GoPipeline.Yaml
